@@ -28,7 +28,7 @@ type c18E2E struct {
 }
 
 var c18ValidNames = []string{"A", "B", "a-b_1", "0", "REQ", "Z9"}
-var c18InvalidNames = []string{"", "A B", "A.B", "{A}", "É", "A\n", "A}", "a/b", " A"}
+var c18InvalidNames = []string{"", "A B", "A.B", "{A}", "É", "A\n", "A}", "a/b", " A", "pkg[0]", "a^b", "a]b", "back\\slash", "tick`", "a@b", "a:b", "a+b", "a~b", "A\x00", "a=b", "a,b", "a;b", "a|b", "a!", "(a)", "a%b", "a#", "a&b", "a'b", "a\"b", "a<b>", "a?b", "a*"}
 
 func c18Text() *rapid.Generator[string] {
 	atoms := []string{"{A}", "{B}", "{a-b_1}", "{0}", "{UNKNOWN}", "{", "}", "{{A}}", "{A}{B}", "{A", "A}", "{}", "{ A}", "{A }", "x", " ", "/", "*", "{É}", "{A.B}", "é", "{REQ}", "{Z9}", "{{", "}}", "{a}", "{A}}"}
@@ -48,9 +48,16 @@ func c18GenParams(t *rapid.T) map[string]string {
 	out := map[string]string{}
 	for i := 0; i < n; i++ {
 		var name string
-		if rapid.IntRange(0, 9).Draw(t, "invalid") == 0 {
+		switch inv := rapid.IntRange(0, 19).Draw(t, "invalid"); {
+		case inv == 0:
 			name = rapid.SampledFrom(c18InvalidNames).Draw(t, "badname")
-		} else {
+		case inv == 1:
+			// a valid name with one arbitrary ASCII character inserted (validity decided by the reference)
+			base := rapid.SampledFrom(c18ValidNames).Draw(t, "basename")
+			ch := byte(rapid.IntRange(1, 127).Draw(t, "char"))
+			pos := rapid.IntRange(0, len(base)).Draw(t, "pos")
+			name = base[:pos] + string([]byte{ch}) + base[pos:]
+		default:
 			name = rapid.SampledFrom(c18ValidNames).Draw(t, "name")
 		}
 		out[name] = rapid.SampledFrom([]string{"v", "", "{B}", "{A}", "a.txt", "{", "}", "x{A}y", "é{0}", "*"}).Draw(t, "value")
